@@ -24,6 +24,10 @@ type VG struct {
 	// a field takes" — with one index driving both, a message's map field was never both present
 	// and filled with several entries among the first dozen values.
 	shift int
+	// BigN > 0 makes the "many elements" variants of top-level arrays and of maps with 32/64-bit
+	// integer keys hold BigN elements (C06: a valid encoding large enough for "allocates out of
+	// proportion to the bytes it was given" to be decidable on its prefixes).
+	BigN int
 }
 
 func NewVG(c *Ctx, seed int64) *VG {
@@ -191,6 +195,9 @@ func (g *VG) Type(t schema.Type, i, depth int) any {
 			if depth <= 1 {
 				n = 21 // more elements than a stream decoder pre-allocates
 			}
+			if g.BigN > 0 && depth == 0 {
+				n = g.BigN
+			}
 		}
 		out := make([]any, n)
 		for j := range out {
@@ -211,6 +218,13 @@ func (g *VG) Type(t schema.Type, i, depth int) any {
 			n = 1
 		case 3:
 			n = 3
+		}
+		if g.BigN > 0 && depth == 0 && n == 3 && (t.Key == "uint32" || t.Key == "int32" || t.Key == "uint64" || t.Key == "int64") {
+			out := make([]any, 0, g.BigN)
+			for j := 0; j < g.BigN; j++ {
+				out = append(out, []any{strconv.Itoa(j*7 + 1), g.Type(*t.Val, i+j*5+1, depth+1)})
+			}
+			return out
 		}
 		keys := g.PrimValues(t.Key)
 		if t.Key == "date" {
